@@ -37,7 +37,7 @@ var table = map[string]func(tier string) int{
 
 func main() {
 	debug.SetPanicOnFault(true)
-	if len(os.Args) < 3 {
+	if len(os.Args) < 3 && !(len(os.Args) == 2 && os.Args[1] == "golden") {
 		fmt.Fprintln(os.Stderr, "usage: vcheck <property> <quick|thorough> | vcheck worker <kind> | vcheck replay <file>")
 		os.Exit(2)
 	}
@@ -58,6 +58,8 @@ func main() {
 			}
 		}
 		return
+	case "golden":
+		os.Exit(checks.GoldenWrite())
 	case "job":
 		f := checks.JobFuncs[os.Args[2]]
 		if f == nil {
